@@ -30,7 +30,7 @@ claimed = {
  "C20": ("fault_enumeration", "Stop / messaging loss injected after every step of 6 base histories over real WebSocket connections: all clients closed, new requests refused, cause reported, restart works.", "fault-point enumeration over (history, step index, fault kind) on the free-running gateway with real sockets", "6 C20"),
 }
 MM = " + explicit-state breadth-first search (Mode M): environment actions followed by a run to internal quiescence on the real Service, canonical state hashing, successors rebuilt by replaying the shortest path, every state probed with the end-of-run oracles"
-for pid, spec in {"C01": "M:events", "C02": "M:gc", "C03": "M:events", "C04": "M:access", "C05": "M:access", "C06": "M:access", "C07": "M:count", "C08": "M:count", "C09": "M:cache", "C11": "M:cache", "C12": "M:events", "C13": "M:query"}.items():
+for pid, spec in {"C01": "M:events", "C02": "M:gc", "C03": "M:events", "C04": "M:access", "C05": "M:access", "C06": "M:access", "C07": "M:count", "C08": "M:count", "C09": "M:cache", "C10": "M:iso", "C11": "M:cache", "C12": "M:events", "C13": "M:query"}.items():
     cat, text, tech, ref = claimed[pid]
     claimed[pid] = (cat, text + " Also every state of the Mode M space " + spec + " up to the depth reported in evidence.", tech + MM, ref)
 TB = TB.replace("Go map iteration order observed not enumerated", "Go map iteration order observed not enumerated except the subscriber fan-out, which runs in registration order (build overlay)")
